@@ -252,6 +252,8 @@ def configs(ctx, cur, n_random):
 def run(ctx):
     t0 = time.time()
     lean_ok = ctx.build(required_theorems=REQUIRED)
+    import skops.cli.entrypoint  # noqa: F401  (imported before any child changes directory)
+    import skops.cli._update  # noqa: F401
     from skops.io._protocol import PROTOCOL as cur
 
     g = objgen.G(ctx.rng)
